@@ -27,7 +27,7 @@ RULE = (
     "history); non-trivial = at least one section was replayed from the cache and one was re-executed after "
     "an invalidation."
 )
-RULE += " added since: six d0 signatures (keyword-only after *args included), recompilation under the same URI honouring the backend's starttime, inherited cached sections, invalidate postconditions, exact kwargs handed to the backend, cached sections that raise. cached sections of INCLUDED templates (same-named defs in includer and included; include_error_handler unset / returning False / True; invalidation per template)."
+RULE += " added since: six d0 signatures (keyword-only after *args included), recompilation under the same URI honouring the backend's starttime, inherited cached sections, invalidate postconditions, exact kwargs handed to the backend, cached sections that raise. cached sections of INCLUDED templates (same-named defs in includer and included; include_error_handler unset / returning False / True; invalidation per template). the included template's cached sections also reached through a <%namespace> of the including one."
 ASSUMPTIONS = [
     "the recording backend stores per (Cache.id, key), as Beaker does with namespaces",
     "no expiry is exercised: timeouts are large (Beaker/dogpile use real time)",
